@@ -372,6 +372,8 @@ def draw_sched(W, allow_trace=True, walk_p=0.6, means=(3, 10, 30, 100, 300), pct
             sched["pct_len"] *= 8
     if W.chance(0.25):
         sched["delay"] = True
+    if W.chance(0.3):
+        sched["handoff"] = True  # lock hand-off bias: a released lock goes to a waiter at once (half of the time)
     return sched, trace
 
 
